@@ -1,4 +1,5 @@
 import Crd.Lemmas.SmfCrd
+import Crd.Lemmas.SmfBalance
 import Crd.Lemmas.Deltas
 import Crd.Props.C08
 import Crd.Props.C01
@@ -206,5 +207,88 @@ theorem write_output_parses (f : WriteFlags) (attrs : List RawAttr) (rs : List R
 example : ((cmdWriteTracks { track := 2 } Crd.Props.C01.exDoc).toOption.bind fun ts =>
       (smfEncode ticksPerQuarter ts).bind fun b => (parseSMF b).toOption.map fun f => (f.format, f.division, f.tracks.map (·.length))) =
     some (1, 960, [8, 19]) := by decide
+
+end Crd.Props.C08
+
+namespace Crd.Props.C08
+open Crd Crd.Spec Crd.Generated Crd.Props.C06
+
+/-- the flags only ever put a known dynamic on the first instance -/
+theorem prepare_keeps_dyns (f : WriteFlags) (is is' : List Instance) (d : Dict) (N : Nat)
+    (h : prepareWrite f is = .ok (d, N, is')) (hk : KnownDyns is) : KnownDyns is' := by
+  have hov0 : ∀ i i', overrideFromFlags f i = .ok i' → i'.velocity = i.velocity ∨ ∃ d, d ≠ Dyn.unknown ∧ i'.velocity = some d := by
+    intro i i' ho
+    unfold overrideFromFlags at ho
+    simp only [bind, Except.bind, pure, Except.pure, throw, throwThe, MonadExceptOf.throw] at ho
+    repeat' split at ho
+    all_goals (first | cases ho | skip)
+    all_goals first
+      | (left; rfl)
+      | (right; refine ⟨_, ?_, rfl⟩; assumption)
+  have hov : ∀ i i', overrideFromFlags f i = .ok i' → ∀ v, i'.velocity = some v → v ∈ sixDyns ∨ i.velocity = some v := by
+    intro i i' ho v hv
+    rcases hov0 i i' ho with h1 | ⟨dd, hd, h1⟩
+    · right; rw [← h1]; exact hv
+    · left; rw [h1] at hv; cases hv; exact dyn_mem _ hd
+  cases is with
+  | nil =>
+    have : is' = [] := by
+      unfold prepareWrite at h
+      simp only [bind, Except.bind, pure, Except.pure, throw, throwThe, MonadExceptOf.throw] at h
+      repeat' split at h
+      all_goals (first | cases h | skip)
+      all_goals rfl
+    subst this
+    intro j hj; cases hj
+  | cons i rest =>
+    obtain ⟨i', ho, rfl⟩ := Crd.Props.C01.prepared_tail_unchanged f i rest d N is' h
+    intro j hj v hv
+    rcases List.mem_cons.mp hj with rfl | hj'
+    · rcases hov i _ ho v hv with h1 | h1
+      · exact h1
+      · exact hk i (by simp) v h1
+    · exact hk j (by simp [hj']) v hv
+
+/-- **no hanging or unmatched notes, as the strict reader sees the file**: in every track of the parsed file every
+note-on is closed by a later note-off of the same key and channel, nothing is closed that is not open, nothing stays
+open (`Crd.Spec.notesBalanced`) -/
+theorem written_tracks_balanced (f : WriteFlags) (is : List Instance) (tracks : List Track)
+    (h : cmdWriteTracks f is = .ok tracks) (hk : KnownDyns is) :
+    ∀ t ∈ tracks, notesBalanced (t.ops.map toS) = true := by
+  obtain ⟨d, N, is', hp, hN1, hN2, hlen, hall⟩ := write_refines f is tracks h
+  have hk' := prepare_keeps_dyns f is is' d N hp hk
+  intro t ht
+  obtain ⟨i, hi, hti⟩ := List.getElem_of_mem ht
+  obtain ⟨t', ht', _, htl⟩ := hall i (by omega)
+  have : t' = t := by
+    rw [List.getElem?_eq_getElem hi] at ht'
+    simpa [hti] using ht'.symm
+  subst this
+  have hev : t'.ops.map (·.2) = (((refTimeline f d is').filter (fun e => route N e = i)).map stripT).map (·.2) ++ [Ev.close] := by
+    have := absTimes_events 0 t'.ops
+    rw [show absTimes 0 t'.ops = t'.timeline from rfl, htl] at this
+    simpa [refTimeline] using this.symm
+  unfold notesBalanced
+  have hc : notesBalanced.go [] (t'.ops.map toS) = notesBalanced.go [] ((t'.ops.map (·.2)).map evS) := by
+    apply go_congr
+    · simp only [List.map_map]; apply List.map_congr_left; intro x _; exact (toS_on x).1
+    · simp only [List.map_map]; apply List.map_congr_left; intro x _; exact (toS_on x).2
+  rw [hc, hev]
+  simp only [refTimeline, List.filter_append, List.map_append, List.map_map, List.append_assoc]
+  -- initial events: ignored
+  rw [go_skip_all]
+  · have hb := pieceLog_balanced goTicks d N i is' hk' 0 true defaultKey defaultVelocity (by simp) [] ([Ev.close].map evS)
+    simp only [Function.comp_def, stripT] at hb ⊢
+    rw [hb]
+    simp [notesBalanced.go, (evS_meta .close (Or.inr (Or.inl rfl))).1, (evS_meta .close (Or.inr (Or.inl rfl))).2]
+  · intro e he
+    obtain ⟨x, hx, rfl⟩ := List.mem_map.mp he
+    have hx' := (List.mem_filter.mp hx).1
+    simp only [initLog, List.mem_cons, List.mem_nil_iff, or_false] at hx'
+    simp only [Function.comp_def, stripT]
+    rcases hx' with rfl | rfl | rfl
+    · exact evS_meta _ (Or.inl rfl)
+    · exact evS_meta _ (Or.inl rfl)
+    · exact evS_meta _ (Or.inr (Or.inr ⟨_, _, rfl⟩))
 
 end Crd.Props.C08
